@@ -475,10 +475,14 @@ def runPredicates (sc : Scn) (fx : Facts) (evs : List Ev) : List (String × Opti
   let fullArgs := execs.all (fun e => match sc.fn e.fid with
     | some f => e.args.length == f.input.values.length | none => false)
   let c01 := c01check sc fx.supplied execs
+  let twinSeen := match c01 with | some m => m.startsWith "twin_interfaces" | none => false
   -- C02
   let c02 : Option String :=
     if fx.underiv.isEmpty then none
-    else if !isErrRes ires ∧ !isPanicRes ires then some s!"underivable_{showLabel (fx.underiv.headD default)}_but_call_returned_{outcomeClass ires}"
+    else if !isErrRes ires ∧ !isPanicRes ires then
+      -- (when the same trace shows finding F14 — a value reaching a parameter through twin interface types — the success
+      -- of the call is that finding seen from this property: marked, so that the known-findings file can tell it apart)
+      some s!"{if twinSeen then "twin_interfaces:" else ""}underivable_{showLabel (fx.underiv.headD default)}_but_call_returned_{outcomeClass ires}"
     else if isPanicRes ires then some s!"underivable_parameter_and_call_{outcomeClass ires}"
     else if targetRan then some "target_executed_although_unsatisfiable"
     else if !fullArgs then some "converter_executed_with_missing_argument"
@@ -559,7 +563,7 @@ def runPredicates (sc : Scn) (fx : Facts) (evs : List Ev) : List (String × Opti
           some "a_supplied_converter_is_missing_from_the_report"
         else if (kv rest "mentions").getD "" ≠ "true" then some "message_does_not_mention_a_missing_argument"
         else c13msg
-      | _ => some s!"hopeless_parameter_but_{outcomeClass ires}"
+      | _ => some s!"{if twinSeen then "twin_interfaces:" else ""}hopeless_parameter_but_{outcomeClass ires}"
   [("C01", c01), ("C02", c02), ("C03", c03), ("C04", c04), ("C06", c06), ("C13", c13)]
 
 /-! ### converter generators: the traced invocations against the model -/
